@@ -31,8 +31,8 @@ theorem txIdsAgree_of_prefix {own : Own} {chain rest : List Block} {node : Node}
 
 /-- the ledger fact with C01's own hypotheses only: the wallet's chain is a prefix of the node's valid best chain -/
 theorem existsTx_index_prefix {c : Ctx} {s : Store} {chain rest : List Block} (hI : Inv c s chain)
-    (hN : c.node.chain = chain ++ rest) (hV : ChainValid c.own c.node.chain) {cur : Wid} {tx : TxId} {idx : Nat}
-    {t : Tx} {blk : BlockMeta} (h : MW.Model.ApiLedger.existsTx s c.node cur tx idx = some (t, blk)) :
+    (hN : c.node.chain = chain ++ rest) (hV : ChainValid c.own c.node.chain) {len : Tx → Nat} {cur : Wid} {tx : TxId} {idx : Nat}
+    {t : Tx} {blk : BlockMeta} (h : MW.Model.ApiLedger.existsTx len s c.node cur tx idx = some (t, blk)) :
     idx < t.outs.length ∧ t.id = tx :=
   existsTx_index hI (chainValid_prefix (hN ▸ hV)) (txIdsAgree_of_prefix hN hV) h
 
